@@ -151,6 +151,10 @@ func init() {
 			msg.Prices[0].Desc = string(pad)
 		}
 		other := w.Op(op.A + 1).ConsKeys[0]
+		if other.PubKey().Equals(key.PubKey()) {
+			// the "other" key must really be another key (an operator may have taken its neighbour's unused key)
+			other = deriveEdKey(r.Cfg.Seed, "otherkey", op.A)
+		}
 		mode := SigMode(op.M % 100)
 		bz, err := OracleTx(r.Cfg.ChainID, key, other, mode, msg)
 		if err != nil {
@@ -177,6 +181,73 @@ func init() {
 		bt.Sender = sdk.AccAddress(key.PubKey().Address())
 		bt.Oracle = &OracleInfo{Validator: validator, Creator: msg.Creator, FeederID: fid, BasedBlock: bb, Nonce: nonce, Price: price, Decimal: dec,
 			DetID: detID, SourceID: src, Timestamp: msg.Prices[0].Prices[0].Timestamp, SigMode: mode, TsOffset: int64(op.D), Size: len(bz), IsValidator: isVal, NMsgs: 1}
+		return bt, nil
+	}
+}
+
+func init() {
+	// price2: ONE fee-less transaction with TWO create-price messages: the first attributed to
+	// operator A's consensus key (which signs), the second attributed to operator C's consensus key
+	// (which does not sign). B feeder, S price. The second message is a forgery: it must not be
+	// admitted or counted for C.
+	extraBuilders["price2"] = func(r *Run, ctx sdk.Context, op Op) (*BuiltTx, error) {
+		w := r.W
+		a, v := w.Op(op.A), w.Op(op.C)
+		bt := &BuiltTx{Op: op, Kind: "oracle", Method: "MsgCreatePrice x2", Operator: v.Addr}
+		keyOf := func(o *Operator) (*ed25519.PrivKey, bool) {
+			if k := r.activeConsKey(ctx, o); k != nil {
+				return k, true
+			}
+			if k := r.currentConsKey(ctx, o); k != nil {
+				return k, false
+			}
+			return o.ConsKeys[ConsKeyPool-1], false
+		}
+		ka, _ := keyOf(a)
+		kv, vIsVal := keyOf(v)
+		p := r.Node.App.OracleKeeper.GetParams(ctx)
+		fid := uint64(op.B)
+		if fid == 0 {
+			fid = 1
+		}
+		if int(fid) >= len(p.TokenFeeders) {
+			fid = uint64(len(p.TokenFeeders) - 1)
+		}
+		feeder := p.TokenFeeders[fid]
+		bb, roundID, _ := BasedBlockFor(feeder, ctx.BlockHeight())
+		nextNonce := func(k *ed25519.PrivKey) int32 {
+			n := int32(1)
+			if x, ok := r.Node.App.OracleKeeper.GetNonce(ctx, sdk.ConsAddress(k.PubKey().Address()).String()); ok {
+				for _, e := range x.NonceList {
+					if e.FeederID == fid {
+						n = int32(e.Value) + 1
+					}
+				}
+			}
+			return n
+		}
+		dec := int32(0)
+		if int(feeder.TokenID) < len(p.Tokens) {
+			dec = p.Tokens[feeder.TokenID].Decimal
+		}
+		price := op.S
+		if price == "" {
+			price = "1"
+		}
+		ts := ctx.BlockTime().UTC().Format(oracleTimeLayout)
+		detID := fmt.Sprintf("%d", roundID)
+		m1 := NewPriceMsg(OracleCreator(ka), fid, bb, nextNonce(ka), 1, price, dec, detID, ts)
+		nv := nextNonce(kv)
+		m2 := NewPriceMsg(OracleCreator(kv), fid, bb, nv, 1, price, dec, detID, ts)
+		bz, err := OracleTx(r.Cfg.ChainID, ka, ka, SigValid, m1, m2)
+		if err != nil {
+			return nil, err
+		}
+		bt.Bytes = bz
+		bt.Sender = sdk.AccAddress(ka.PubKey().Address())
+		victim := sdk.ConsAddress(kv.PubKey().Address()).String()
+		bt.Oracle = &OracleInfo{Validator: victim, Creator: m2.Creator, FeederID: fid, BasedBlock: bb, Nonce: nv, Price: price, Decimal: dec,
+			DetID: detID, SourceID: 1, Timestamp: ts, SigMode: SigOtherKey, Size: len(bz), IsValidator: vIsVal, NMsgs: 2}
 		return bt, nil
 	}
 }
